@@ -179,6 +179,7 @@ class Scheduler:
         self.stop_at = None   # callable(trace_entry) -> True to prune the execution
         self.pending = [None] * self.n
         self.preempts = 0
+        self.sleeping = {}    # process -> file-system snapshot at the moment it went to sleep
 
     # ---- called from simulated processes
     def record_result(self, r):
@@ -189,7 +190,11 @@ class Scheduler:
         if self.aborted:
             raise Abort()
         self.pending[tid] = (op, path)
-        self._schedule(tid)
+        # a process that waits (sleep inside a retry loop) yields: another process runs next if there is one - otherwise a spin-wait
+        # could be scheduled forever and every waiting loop would look like a livelock
+        if op == "sleep":
+            self.sleeping[tid] = self.vfs.snapshot()      # blocked until the file system changes (see _schedule)
+        self._schedule(tid, yielding=(op == "sleep"))
         if self.aborted:
             raise Abort()
         self.hist[tid].append((op, path))
@@ -197,13 +202,33 @@ class Scheduler:
     def _state_key(self):
         return (self.vfs.snapshot(), tuple(tuple(h) for h in self.hist), tuple(self.done), tuple(self.pending))
 
-    def _schedule(self, running):
-        enabled = [i for i in range(self.n) if not self.done[i]]
-        if not enabled:
+    def _schedule(self, running, yielding=False):
+        alive = [i for i in range(self.n) if not self.done[i]]
+        if not alive:
             return
+        # waiting is modelled as blocking: a process that sleeps inside a retry loop is enabled again only after the file system has
+        # changed (nothing it could be waiting for happens otherwise); if nobody else is enabled the waiters wait forever
+        snap = self.vfs.snapshot() if self.sleeping else None
+        for i in list(self.sleeping):
+            if self.done[i] or self.sleeping[i] != snap:
+                del self.sleeping[i]
+        enabled = [i for i in alive if i not in self.sleeping]
+        if not enabled:
+            self.aborted = True
+            self.horizon_hit = (alive, [self.hist[i][-3:] for i in alive], True)
+            raise Abort()
+        if yielding and len(enabled) > 1:
+            enabled = [i for i in enabled if i != running]
+            waiter, running = running, None
+        else:
+            waiter = None
         step = len(self.trace)
         if step >= self.horizon:
             self.aborted = True
+            # who is still running, and is every one of them inside a waiting loop (nothing but lock attempts and sleeps lately)?
+            unfinished = [i for i in range(self.n) if not self.done[i]]
+            waiting = [all(h[0] in ("os-open", "sleep") for h in self.hist[i][-6:]) and len(self.hist[i]) >= 6 for i in unfinished]
+            self.horizon_hit = (unfinished, [self.hist[i][-3:] for i in unfinished], bool(unfinished) and all(waiting))
             raise Abort()
         # canonical order: the running thread first if still enabled, then ascending ids
         order = ([running] if running is not None and running in enabled else []) + [i for i in enabled if i != running]
@@ -222,6 +247,8 @@ class Scheduler:
         if step >= len(self.prefix) and self.stop_at is not None and self.stop_at(entry):
             self.aborted = True
             raise Abort()
+        if waiter is not None:
+            running = waiter
         if choice != running:
             self.current = choice
             self.sems[choice].release()
@@ -424,6 +451,14 @@ class Interposer:
                 return o["os_open"](path, flags, *a, **kw)
             s = me.sched
             s.point("os-open", path)
+            if flags & os.O_CREAT:
+                # lock-file idiom: O_CREAT|O_EXCL is an atomic test-and-create
+                if path in s.vfs.files:
+                    if flags & os.O_EXCL:
+                        raise FileExistsError(path)
+                else:
+                    s.vfs.add(path, "")
+                return s.vfs.new_fd(path)
             if path.rstrip("/") not in s.vfs.dirs and path not in s.vfs.files:
                 raise FileNotFoundError(path)
             return s.vfs.new_fd(path)
@@ -432,6 +467,15 @@ class Interposer:
             if me.sched is None or fd not in me.sched.vfs.fds:
                 return o["os_close"](fd)
 
+        def vsleep(seconds):
+            # waiting is a scheduling point, not real time
+            if me.sched is None or me.sched.current is None:
+                return o["sleep"](seconds)
+            me.sched.point("sleep", "")
+
+        import time as _time
+        o["sleep"] = _time.sleep
+        _time.sleep = vsleep
         builtins.open = vopen
         os.fsync = vfsync
         os.open = vos_open
@@ -459,6 +503,8 @@ class Interposer:
         os.rename = o["rename"]
         os.remove = o["remove"]
         os.getpid = o["getpid"]
+        import time as _time
+        _time.sleep = o["sleep"]
 
 
 # ------------------------------------------------------------------------------------------------ explorer
@@ -494,6 +540,14 @@ def explore(make_bodies, vfs_init, check, bound=None, max_exec=200000, interpose
         trace = s.trace
         stats["max_depth"] = max(stats["max_depth"], len(trace))
         pruned = s.aborted
+        hh = getattr(s, "horizon_hit", None)
+        if hh and hh[2] and "no-progress" not in violations:
+            # waiting loops make the execution space cyclic: when the step horizon is reached and every unfinished process does nothing
+            # but retry and sleep, nobody is left who could release what they wait for (livelock)
+            violations["no-progress"] = ("the unfinished processes %s only wait (last operations %s) and nobody is left who could change what they "
+                                         "are waiting for" % (hh[0], hh[1]), [e["chosen"] for e in trace])
+        elif hh and not hh[2]:
+            stats["capped"] = True          # an execution longer than the horizon that still makes progress: not fully explored
         if pruned:
             stats["pruned"] += 1
         else:
